@@ -43,6 +43,7 @@
 #include <fcntl.h>
 #include <signal.h>
 #include <sys/stat.h>
+#include <sys/time.h>
 
 extern REMOVALPOLICYCREATE createRemovalPolicy_lru;
 
@@ -468,10 +469,12 @@ void reportDeath(int st, const std::string &errFile, const std::string &what)
     }
     ++rs.died;
     std::string how;
-    if (WIFSIGNALED(st)) how = WTERMSIG(st) == SIGALRM ? "hang (killed after 30 s)" : "signal " + std::to_string(WTERMSIG(st));
+    const bool hang = WIFSIGNALED(st) && (WTERMSIG(st) == SIGALRM || WTERMSIG(st) == SIGPROF);
+    if (hang) how = WTERMSIG(st) == SIGPROF ? "no end after 20 s of CPU time" : "no end after 600 s";
+    else if (WIFSIGNALED(st)) how = "signal " + std::to_string(WTERMSIG(st));
     else how = "exit status " + std::to_string(WEXITSTATUS(st));
     const std::string why = firstInterestingLine(errFile);
-    const std::string key = WIFSIGNALED(st) && WTERMSIG(st) == SIGALRM ? std::string("rebuild-hangs") : "rebuild-dies: " + (why.empty() ? how : why);
+    const std::string key = hang ? std::string("rebuild-hangs") : "rebuild-dies: " + (why.empty() ? how : why);
     failCapped(key, "the rebuilding process died (" + how + ") on image " + what);
     V::outcome("died");
 }
@@ -483,6 +486,17 @@ void tally(const Verdict &v)
     if (v.writeLocked) ++rs.withWriteLocked;
     if (v.anchorKeyDiffers) ++rs.keyDiffers;
     V::outcome("rebuilt:" + std::to_string(v.readable) + "-readable" + (v.leaked ? "+leaked-slots" : "") + (v.writeLocked ? "+write-locked-anchor" : ""));
+}
+
+// a rebuild that does not come to an end burns CPU: limit the CPU time per image (a wall-clock limit
+// fires spuriously on an overloaded machine); a generous wall-clock limit catches a blocked process
+void armWatchdog()
+{
+    struct itimerval it;
+    memset(&it, 0, sizeof it);
+    it.it_value.tv_sec = 20;
+    setitimer(ITIMER_PROF, &it, nullptr);     // SIGPROF after 20 s of user+system time
+    alarm(600);
 }
 
 void redirectOutput(const std::string &errFile)
@@ -505,7 +519,7 @@ bool runImage(const Image &im, const std::string &what, bool count = true)
     if (pid < 0) { V::fail("fork failed"); return false; }
     if (pid == 0) {
         redirectOutput(errFile);
-        alarm(30);
+        armWatchdog();
         rebuildAndJudge(im);
         verdict->done = 1;
         _exit(0);
@@ -537,6 +551,7 @@ volatile int *batchCursor = nullptr;
 
 void runBatch(std::vector<Job> &jobs)
 {
+    if (getenv("C57_DRY")) { V::count("dry_images", jobs.size()); jobs.clear(); return; }    // size of the enumeration only
     const std::string errFile = workDir + "/stderr.txt";
     for (size_t base = 0; base < jobs.size(); base += BatchMax) {
         const int count = (int)std::min<size_t>(BatchMax, jobs.size() - base);
@@ -553,7 +568,7 @@ void runBatch(std::vector<Job> &jobs)
                 for (int i = start; i < count; ++i) {
                     *batchCursor = i;
                     if (ftruncate(2, 0) == 0) lseek(2, 0, SEEK_SET);
-                    alarm(30);
+                    armWatchdog();
                     verdict = &batchVerdicts[i];
                     rebuildAndJudge(jobs[base + i].im);
                     verdict->done = 1;
@@ -565,10 +580,12 @@ void runBatch(std::vector<Job> &jobs)
             int next = count;
             for (int i = start; i < count; ++i) if (!batchVerdicts[i].done) { next = i; break; }
             if (next >= count) break;
-            // the worker died while rebuilding image `next`
-            ++rs.images;
+            // the worker died while rebuilding image `next`: run that image in a process of its own,
+            // which reports the death if it happens again
             died[next] = true;
-            reportDeath(st, errFile, jobs[base + next].what);
+            ++rs.recheckedAlone;
+            if (runImage(jobs[base + next].im, jobs[base + next].what))
+                V::count("worker_deaths_not_reproduced_alone");
             start = next + 1;
         }
         for (int i = 0; i < count; ++i) {
@@ -677,17 +694,21 @@ void body(V::Ctx &ctx)
 
     // plan: (number of slots, which base layouts, single or double deviations)
     // quick: n=3 all layouts, n=4 the layouts with two entries whose second entry has two slots
-    // thorough: n=4 and n=5 all layouts; pairs of deviations on the n=3 layouts
-    struct Plan { int n; bool onlyTwoEntriesSecondOfTwoSlots; bool pairs; };
+    // thorough: n=4 all layouts; n=5 the layouts whose entries all have two or three slots; pairs of
+    // deviations on the n=3 layouts with two entries or a three-slot entry
+    enum Filter { All, SecondOfTwoSlots, MultiSlotEntries, TwoEntriesOrThreeSlots };
+    struct Plan { int n; Filter filter; bool pairs; };
     std::vector<Plan> plans;
-    if (ctx.quick()) plans = {{3, false, false}, {4, true, false}};
-    else plans = {{4, false, false}, {5, false, false}, {3, false, true}};
+    if (ctx.quick()) plans = {{3, All, false}, {4, SecondOfTwoSlots, false}};
+    else plans = {{4, All, false}, {5, MultiSlotEntries, false}, {3, TwoEntriesOrThreeSlots, true}};
 
     for (const Plan &pl : plans) {
         std::vector<std::vector<EntryPlan>> ls;
         layouts(pl.n, 3, true, ls);
         for (const auto &es : ls) {
-            if (pl.onlyTwoEntriesSecondOfTwoSlots && !(es.size() == 2 && es[1].at.size() == 2)) continue;
+            if (pl.filter == SecondOfTwoSlots && !(es.size() == 2 && es[1].at.size() == 2)) continue;
+            if (pl.filter == MultiSlotEntries && !(es[0].at.size() >= 2 && (es.size() == 1 || es[1].at.size() >= 2))) continue;
+            if (pl.filter == TwoEntriesOrThreeSlots && !(es.size() == 2 || es[0].at.size() == 3)) continue;
             if (pastDeadline()) break;
             const Image base = baseImage(pl.n, es);
             const std::vector<Dev> devs = deviations(base, true);
@@ -695,8 +716,9 @@ void body(V::Ctx &ctx)
             if (!pl.pairs) {
                 if (!V::begin_case(lname + " | base + every single deviation")) continue;
                 // the base image itself must be indexed completely (harness sanity)
-                runImage(base, lname + " (unmodified)");
-                if (verdict->done && !verdict->key[0] && verdict->readable != (int)es.size())
+                if (!getenv("C57_DRY")) runImage(base, lname + " (unmodified)");
+                if (getenv("C57_DRY")) V::count("dry_images");
+                else if (verdict->done && !verdict->key[0] && verdict->readable != (int)es.size())
                     V::failKey("harness:valid-base-image-not-fully-indexed", lname + ": " + std::to_string(verdict->readable) + " readable entries instead of " + std::to_string(es.size()));
                 else V::count("base_images_fully_indexed");
                 std::vector<Job> jobs;
